@@ -27,6 +27,15 @@ def budget(tier):
     return 5000 if tier == "quick" else 30000
 
 
+VARIANT_DISTINCT_SEEDS = True
+
+
+def variants(tier):
+    # the module's logging switch (read at import time) must not change what is read
+    return [{"name": "default", "env": {}, "shards": 12},
+            {"name": "debug-logging", "env": {"DISSECT_LOG_VHDX": "DEBUG"}, "args": {"budget_scale": 0.2}, "shards": 4}]
+
+
 @st.composite
 def vhdx_spec(draw, tier="quick", layer=0, geometry=None, has_parent=False):
     if geometry:
@@ -109,6 +118,7 @@ def strategy_(draw, tier):
         pts += [b * bs, (b + 1) * bs]
     spec["requests"] = draw(strat.requests(spec["size"], bs, count=6, points=pts, whole_limit=4 << 20))
     spec["via_minimal"] = draw(strat.minimal_handle())
+    spec["creator"] = draw(st.sampled_from([None, None, None, None, "full", "cut-surrogate", "lone-surrogate", "bytes"]))
     ss = spec["sector_size"]
     spec["sector_requests"] = [[o // ss, max(1, min(n, 1 << 20) // ss)] for o, n in spec["requests"][:2]]
     return spec
